@@ -13,9 +13,16 @@ Aliasing is explicit: every array the caller can touch (arrays it created, array
 discipline) lives in `State.heap` at an address; the caller's handles map to addresses; `mut` writes
 in place.  A cache stores *cells*: `val v` (a private copy) or `ref a` (the caller-visible array at
 address `a`, i.e. "stored by reference").  `Policy` says which of the two the cache does on write
-and whether a hit hands out a private copy or the stored array itself.  The repaired code is
-`Policy.copy` (copy on write, copy on hit); the by-reference policies are kept so that the defects
-found on the pinned tree are expressible (see the counter-examples in Props/C05.lean).
+and whether a hit hands out a private copy or the stored array itself, and *when* the inputs of
+the entry of an execution are read (`Snap`: before the body runs, or when the entry is written).
+The repaired code is `Policy.copy` (copy on write, copy on hit, inputs copied before the run); the
+other policies are kept so that the defects found on the pinned tree and the seeded change classes
+are expressible (see the counter-examples in Props/C05.lean).
+
+The body of the discipline is a parameter (`Disc`): besides computing outputs and Jacobian from the
+values of its inputs it may update its input arrays in place (`Disc.wr`: the heap cells of the
+caller's arrays are overwritten during `missState`) and return an input array itself as an output
+(`Disc.aliasOf`: the returned address is the caller's).
 
 Import-free (core Lean only) so that the driver can run it.
 -/
@@ -45,12 +52,22 @@ def deref (heap : List Arr) : Cell → Arr
 
 def derefs (heap : List Arr) (cs : List Cell) : Vals := cs.map (deref heap)
 
+/-- When the inputs of the cache entry of an execution are read (`__create_input_data_for_cache`,
+    `_store_cache`): matters as soon as the body updates its input arrays in place. -/
+inductive Snap where
+  | pre         -- every input is copied before the body runs (the repaired code)
+  | coupledPre  -- only the self-coupled inputs are copied before the run (pinned tree); the others are
+                -- the caller's arrays, read when the entry is written, after the run
+  | post        -- every input is read when the entry is written, after the run
+  deriving Repr, DecidableEq
+
 structure Policy where
   copyOnWrite : Bool
   copyOnHit : Bool
+  snap : Snap
   deriving Repr, DecidableEq
 
-def Policy.copy : Policy := ⟨true, true⟩
+def Policy.copy : Policy := ⟨true, true, .pre⟩
 
 inductive Kind where
   | none
@@ -71,17 +88,27 @@ structure Cfg where
   runSetsJac : Bool                  -- `_run` also fills `jac` and sets `_has_jacobian`
   deriving Repr
 
-/-- The discipline body: parameters of the model. -/
+/-- The discipline body: parameters of the model. `run` and `jacf` are functions of the values the
+    input arrays hold when the body starts. The body may also update its input arrays **in place**:
+    `wr x` are the values it leaves in them (positionally; `wr = id`: it does not touch them), and it
+    may return an input array itself (or a full view of it) as an output: `aliasOf[k] = some i` says
+    that the `k`-th output array is the array of the `i`-th input. -/
 structure Disc where
   run : Vals → Vals
   jacf : Vals → Jac
+  wr : Vals → Vals := fun x => x
+  aliasOf : List (Option Nat) := []
 
-/-- Stored by reference only by the non-shared `MemoryFullCache` (a manager dict pickles, HDF5 writes,
-    `SimpleCache` deep-copies). -/
-def Cfg.cow (c : Cfg) : Bool :=
+/-- Stored by reference only by the non-shared `MemoryFullCache` under the by-reference policy (a
+    manager dict pickles, HDF5 writes, `SimpleCache` deep-copies). -/
+def Cfg.byRef (c : Cfg) : Bool :=
   match c.kind with
-  | .memory false => c.pol.copyOnWrite
-  | _ => true
+  | .memory false => !c.pol.copyOnWrite
+  | _ => false
+
+/-- The cache stores private copies of the data the discipline was *called with*: nothing is kept
+    by reference and the inputs are copied before the body runs. -/
+def Cfg.cow (c : Cfg) : Bool := !c.byRef && c.pol.snap == .pre
 
 /-- A hit hands out the stored arrays themselves only for the in-process caches. -/
 def Cfg.coh (c : Cfg) : Bool :=
@@ -303,19 +330,49 @@ def prepare (cfg : Cfg) (st : State) (args : List (Name × Nat)) : Option (List 
        | none => none)
     | none => d.map (fun v => (v, none)))
 
-/-- Cell stored for one input by `cache_outputs` (`__create_input_data_for_cache`: shallow copy,
-    deep copy of the self-coupled variables) / `cache_jacobian` (no pristine copy) under the write
-    policy. A default value is owned by the discipline: never modified by the caller. -/
-def inputCell (cfg : Cfg) (pristine : Bool) (n : Name) (v : Arr) : Option Nat → Cell
-  | some a => if cfg.cow || (pristine && cfg.outNames.contains n) then Cell.val v else Cell.ref a
+/-- Cell stored for one input. `pristine = true`: by `cache_outputs` / `cache_jacobian` at the end
+    of `execute` (`__create_input_data_for_cache` before the run, `_store_cache` after it): `v` is the
+    value of the array before the run, `heap` the heap after the run (the body may have updated the
+    array in place); which of the two the entry gets is the snapshot policy. `pristine = false`: by
+    the `cache_jacobian` of `linearize` (no pristine copy: the array as it is, `v`). A default value
+    is owned by the discipline: never modified by the caller. -/
+def inputCell (cfg : Cfg) (pristine : Bool) (heap : List Arr) (n : Name) (v : Arr) :
+    Option Nat → Cell
+  | some a =>
+    if pristine && (cfg.pol.snap == .pre ||
+        (cfg.pol.snap == .coupledPre && cfg.outNames.contains n)) then Cell.val v
+    else if cfg.byRef then Cell.ref a
+    else Cell.val (if pristine then heap.getD a v else v)
   | none => Cell.val v
 
-def inputCellsAux (cfg : Cfg) (pristine : Bool) : List Name → List (Arr × Option Nat) → List Cell
+def inputCellsAux (cfg : Cfg) (pristine : Bool) (heap : List Arr) :
+    List Name → List (Arr × Option Nat) → List Cell
   | _, [] => []
-  | ns, (v, a) :: xs => inputCell cfg pristine (ns.headD "") v a :: inputCellsAux cfg pristine ns.tail xs
+  | ns, (v, a) :: xs =>
+    inputCell cfg pristine heap (ns.headD "") v a :: inputCellsAux cfg pristine heap ns.tail xs
 
-def inputCells (cfg : Cfg) (pristine : Bool) (xs : List (Arr × Option Nat)) : List Cell :=
-  inputCellsAux cfg pristine cfg.inNames xs
+def inputCells (cfg : Cfg) (pristine : Bool) (heap : List Arr) (xs : List (Arr × Option Nat)) :
+    List Cell :=
+  inputCellsAux cfg pristine heap cfg.inNames xs
+
+/-- The in-place updates of the body: the array of every input the caller passed receives the value
+    the body leaves in it (a default value is not an array of the caller: the bodies of the model do
+    not write into the defaults of the discipline). -/
+def writeBack : List Arr → List (Arr × Option Nat) → Vals → List Arr
+  | heap, (_, some a) :: xs, w :: ws => writeBack (heap.set a w) xs ws
+  | heap, (_, none) :: xs, _ :: ws => writeBack heap xs ws
+  | heap, _, _ => heap
+
+/-- Addresses of the returned output arrays: a fresh array, or the caller's input array itself when
+    the body returns it (`aliasOf`). -/
+def retAddrs (xs : List (Arr × Option Nat)) (aliasOf : List (Option Nat)) (fresh : List Nat) : List Nat :=
+  (fresh.zip (List.range fresh.length)).map (fun (f, k) =>
+    match aliasOf.getD k none with
+    | some i =>
+      (match xs[i]? with
+       | some (_, some a) => a
+       | _ => f)
+    | none => f)
 
 /-- Allocate arrays in the heap, return their addresses. -/
 def allocs (heap : List Arr) (vs : Vals) : List Arr × List Nat :=
@@ -368,12 +425,14 @@ def execHit (cfg : Cfg) (st : State) (x : Vals) (h : Nat) (oc : List Cell) (cj :
          | none => st)
     ({ st1 with heap := heap', lastRet := cfg.outNames.zip addrs', hasJac := true, dJac := cj }, ovals)
 
-/-- Cache miss, first half: the body runs (`_run`; it may also fill `jac` and set `_has_jacobian`). -/
+/-- Cache miss, first half: the body runs (`_run`; it may also fill `jac` and set `_has_jacobian`,
+    update its input arrays in place and return some of them as outputs). -/
 def missState (cfg : Cfg) (d : Disc) (st : State) (xs : List (Arr × Option Nat)) : State :=
   let x := xs.map (·.1)
   let ovals := d.run x
-  let st1 : State := { st with heap := (allocs st.heap ovals).1,
-                               lastRet := cfg.outNames.zip (allocs st.heap ovals).2,
+  let heapW := writeBack st.heap xs (d.wr x)
+  let st1 : State := { st with heap := (allocs heapW ovals).1,
+                               lastRet := cfg.outNames.zip (retAddrs xs d.aliasOf (allocs heapW ovals).2),
                                nRun := st.nRun + 1, runLog := st.runLog ++ [x] }
   if cfg.runSetsJac then
     { st1 with hasJac := true, dJac := d.jacf x, jacLog := st1.jacLog ++ [x] }
@@ -383,10 +442,10 @@ def missState (cfg : Cfg) (d : Disc) (st : State) (xs : List (Arr × Option Nat)
 def execMiss (cfg : Cfg) (d : Disc) (st : State) (xs : List (Arr × Option Nat)) (h : Nat) :
     State × Vals :=
   let x := xs.map (·.1)
-  let xc := inputCells cfg true xs
   let ovals := d.run x
   let st2 := missState cfg d st xs
-  let oc := if cfg.cow then ovals.map Cell.val else ((allocs st.heap ovals).2).map Cell.ref
+  let xc := inputCells cfg true st2.heap xs
+  let oc := if cfg.byRef then (st2.lastRet.map (·.2)).map Cell.ref else ovals.map Cell.val
   let st3 := cacheStoreOutputs cfg st2 x h xc oc
   (if st3.hasJac then cacheStoreJac cfg st3 x h xc st3.dJac else st3, ovals)
 
@@ -424,7 +483,7 @@ def linCompute (cfg : Cfg) (d : Disc) (st : State) (all : Bool)
   let x := xs.map (·.1)
   let j := linJac cfg d all x
   let st1 : State := { st with dJac := j, nJac := st.nJac + 1, jacLog := st.jacLog ++ [x] }
-  (cacheStoreJac cfg st1 x h (inputCells cfg false xs) j, j)
+  (cacheStoreJac cfg st1 x h (inputCells cfg false st1.heap xs) j, j)
 
 /-- `linearize` after the optional execution: return the valid Jacobian the discipline holds
     (from the cache hit, or from `_run`) if it has the requested blocks, else compute. -/
